@@ -787,6 +787,7 @@ fn run_case<D: Be>(seed: u64, case_ix: u64, tier: &str, out: &mut Out, st: &mut 
                     if !close_db(d) { st.bump("backend_close_hung_case_abandoned"); return; }
                 }
                 let d = catch_unwind(AssertUnwindSafe(|| D::raw_dump(&dir))).unwrap_or_else(|_| "raw-panic".into());
+                if d == "raw-close-hung" { st.bump("backend_close_hung_case_abandoned"); return; }
                 db = Some(D::open_at(&dir));
                 st.bump_n("raw_entries_compared", d.matches('=').count() as u64);
                 d
